@@ -37,11 +37,11 @@ MANIFEST = dict(
     design='7/C16')
 
 def _escapes_nonname(text):
-    """the text holds a backslash escape that stands for an ASCII character which is no letter, '_' or '-'"""
+    """the text holds a backslash escape that stands for an ASCII character which is no letter or '_'"""
     import re
     for m in re.finditer(r'\\([0-9a-fA-F]{1,6})|\\([^0-9a-fA-F\n\r\f])', text):
         c = chr(int(m.group(1), 16)) if m.group(1) and int(m.group(1), 16) <= 0x10ffff else (m.group(2) or '\ufffd')
-        if ord(c) < 128 and not (c.isalpha() or c in '_-'):
+        if ord(c) < 128 and not (c.isalpha() or c == '_'):     # (an escaped hyphen too: '--\2d H' is the name '---H')
             return True
     return False
 
